@@ -8,6 +8,7 @@ package snowflake_proxy
 import (
 	"errors"
 	"net"
+	"time"
 
 	"github.com/pion/webrtc/v3"
 
@@ -88,4 +89,69 @@ func VerifC16_MakePeerConnection() {
 	if err != nil && verifPCs16d == 1 {
 		verifapi.Cover("gave up on a created connection")
 	}
+}
+
+// ---- the real OnDataChannel callback, data channel opened early ----------------------------------
+//
+// runSession with the real makePeerConnectionFromOffer: the client's data channel may open as
+// soon as the answer has reached it - before sendAnswer has returned to runSession. The session
+// then belongs to the data channel handler: runSession must not take the timeout path and give
+// the slot back a second time.
+
+var (
+	verifODC        func(*webrtc.DataChannel)
+	verifHandlerRan int
+)
+
+func verifOnDataChannelCapture(pc *webrtc.PeerConnection, f func(*webrtc.DataChannel)) { verifODC = f }
+func verifDCOnMessage16d(dc *webrtc.DataChannel, f func(webrtc.DataChannelMessage))    {}
+func verifRemoteDescription16d(pc *webrtc.PeerConnection) *webrtc.SessionDescription {
+	return &webrtc.SessionDescription{Type: webrtc.SDPTypeOffer, SDP: "sdp"}
+}
+func verifRemoteIP16d(sdp string) net.IP { return nil }
+func verifPollOffer16d(s *SignalingServer, sid string, proxyType string, pattern string, shutdown chan struct{}) (*webrtc.SessionDescription, string) {
+	return &webrtc.SessionDescription{Type: webrtc.SDPTypeOffer, SDP: "sdp"}, ""
+}
+
+// the answer reaches the client, which opens its data channel at once (pion runs the callback
+// on its own goroutine; here it has finished before sendAnswer returns)
+func verifSendAnswerEarlyOpen(s *SignalingServer, sid string, pc *webrtc.PeerConnection) error {
+	verifAnswered = true
+	verifODC(new(webrtc.DataChannel))
+	return nil
+}
+
+var verifAnswered bool
+
+func verifNewBytesLogger16d() bytesLogger { return bytesNullLogger{} }
+
+// the data channel handler owns the slot from here on; it runs until the client leaves
+func verifDCHandlerHold(sf *SnowflakeProxy, conn *webRTCConn, remoteAddr net.Addr, relayURL string) {
+	verifHandlerRan++
+}
+
+// the 20 s timeout has not expired yet when sendAnswer returns: it never fires in this scenario,
+// so a session whose "opened" signal got lost shows as runSession waiting for ever
+func verifAfterNever(d time.Duration) <-chan time.Time { return make(chan time.Time) }
+
+func VerifC16_EarlyDataChannel() {
+	tokens = newTokens(1)
+	broker = &SignalingServer{}
+	sf := &SnowflakeProxy{RelayDomainNamePattern: "$", shutdown: make(chan struct{})}
+	tokens.get()
+	returned := false
+	go func() {
+		sf.runSession("sid")
+		returned = true
+	}()
+	verifapi.Quiesce()
+	verifapi.Assert(returned, "C16: runSession notices a data channel that opened before sendAnswer returned")
+	if !verifAnswered { // a pion failure before the answer: no session (make-pc / runsession jobs)
+		verifapi.Assert(tokens.count() == 0, "C16: a session that ends without an open data channel releases its slot exactly once")
+		return
+	}
+	verifapi.Cover("data channel opened before sendAnswer returned")
+	verifapi.Assert(verifHandlerRan == 1, "the data channel handler was started once")
+	verifapi.Assert(tokens.count() == 1, "C16: a session whose data channel is open keeps its slot - runSession does not give it back behind the handler's back, however early the channel opened")
+	verifapi.Assert(verifCloses16d == 0, "C16: an opened session is not torn down by runSession")
 }
